@@ -80,5 +80,14 @@ Final ==
          /\ out = ConcatAll([i \in 1..Len(docs) |-> ToStream(docs[i])], 1)  \* = tostream, members in document order
          /\ LET r == FromStream(out) IN r.ok /\ r.vs = [i \in 1..Len(docs) |-> Canon(docs[i])]
 
+\* The same cuts read WITHOUT --stream (jsonInputIter over dec.Decode, JsonScan.tla AllDocs): every complete
+\* document before the cut, then one error unless the cut is at a boundary.  Evaluated in the initial states.
+DecodeFinal ==
+  (pc = "idle" /\ iter = "open" /\ Len(out) = 0 /\ s = StreamInit) =>
+    LET a == AllDocs(Txt, 1, <<>>)
+        nd == Cardinality({i \in 1..Len(docs) : Full.ends[i] <= cut})
+    IN /\ a.vs = [i \in 1..nd |-> Canon(docs[i])]
+       /\ a.fin = (IF cut = 0 \/ cut \in Full.clean THEN "end" ELSE "err")
+
 \* every behaviour ends (no deadlock before "done"): checked by TLC's deadlock check, Done stutters
 =============================================================================
